@@ -4,5 +4,5 @@ set -e
 tag=$1
 wt=/tmp/sw-$tag
 git -C /repo worktree add --detach $wt HEAD >/dev/null 2>&1
-cp -a /tmp/seedconfirm/target $wt/target
+cp -a ${TEMPLATE_TARGET:-/tmp/seedconfirm/target} $wt/target
 echo $wt
